@@ -14,7 +14,7 @@ NOPROG = ("get_call", "get_empty", "is_set", "is_set_call", "shared_read")
 def analyse(recs):
     st = dict(
         owner=None, inflight=collections.Counter(), live=set(), running={}, last={}, progress=0,
-        proc_run=0, proc_start=0, event_set=False, ended=False, qowner={},
+        proc_run=0, proc_start=0, event_set=False, ended=False, qowner={}, unfed=collections.Counter(),
     )
     for r in recs:
         k = r["k"]
@@ -25,8 +25,13 @@ def analyse(recs):
             st["ended"] = True
         elif k == "put_call":
             st["inflight"][r["q"]] += 1
+            st["unfed"][(p, r["q"])] += 1
         elif k in ("get_ret", "put_full"):
             st["inflight"][r["q"]] -= 1
+            if k == "put_full":
+                st["unfed"][(p, r["q"])] -= 1
+        elif k == "feed":
+            st["unfed"][(p, r["q"])] -= 1
         elif k == "proc_run":
             st["live"].add(p)
             st["proc_run"] += 1
@@ -35,6 +40,12 @@ def analyse(recs):
         elif k == "proc_exit":
             st["live"].discard(p)
             st["running"].pop(p, None)
+            # items this process put but its feeder thread never wrote to the pipe (e.g. they could not be pickled) are lost
+            for (pp, q), n in list(st["unfed"].items()):
+                if pp == p and n > 0:
+                    st["inflight"][q] -= n
+                    st["unfed"][(pp, q)] = 0
+                    st["lost_items"] = st.get("lost_items", 0) + n
         elif k == "cb_start":
             st["running"][p] = r.get("pos")
         elif k in ("cb_end", "cb_exc"):
@@ -169,8 +180,9 @@ def stuck_predicate(recs, kind):
     st = analyse(recs)
     if st["ended"] or st["owner"] is None:
         return None
-    if st["proc_run"] == 0 or st["proc_run"] < st["proc_start"]:
-        return None  # workers still starting
+    refused = any(r["k"] == "fork_refused" for r in recs)
+    if (st["proc_run"] == 0 and not refused) or st["proc_run"] < st["proc_start"]:
+        return None  # workers still starting (unless the operating system refused to create them)
     ab = all_blocked(recs)
     if ab:
         return dict(progress=st["progress"], live=len(st["live"]), owner_last=(st["last"].get(st["owner"]) or ("?",))[0], why=ab)
